@@ -188,6 +188,7 @@ func init() {
 	// ready <ecdsa|frost> <key peers> <threshold> <ready peers>  =>  true|false   (Signing.Ready)
 	ops["C08.ready"] = func(a []string) string {
 		kp, thr, ready := c08Peers(a[1]), int(i64(a[2])), c08Peers(a[3])
+		given := append(peer.IDSlice{}, ready...) // the caller's list must still be what it was afterwards
 		var ok bool
 		if a[0] == "ecdsa" {
 			s, err := ecdsaSigning.NewSigning(big.NewInt(1), "m", "sid", &c08Host{}, nil, &c08ECDSAStore{has: true, key: keyshare.ECDSAKeyshare{Threshold: thr, Peers: kp}})
@@ -207,11 +208,12 @@ func init() {
 			}
 			ok, _ = s.Ready(ready, nil)
 		}
-		return fmt.Sprint(ok)
+		return fmt.Sprint(ok) + ";in=" + c08Same(given, ready)
 	}
 	// subset <ecdsa|frost> <key peers> <threshold> <ready peers> <session id>  =>  n=<size>;in=<0|1>;dup=<0|1>   (Signing.StartParams)
 	ops["C08.subset"] = func(a []string) string {
 		kp, thr, ready := c08Peers(a[1]), int(i64(a[2])), c08Peers(a[3])
+		given := append(peer.IDSlice{}, ready...)
 		var raw []byte
 		if a[0] == "ecdsa" {
 			s, err := ecdsaSigning.NewSigning(big.NewInt(1), "m", a[4], &c08Host{}, nil, &c08ECDSAStore{has: true, key: keyshare.ECDSAKeyshare{Threshold: thr, Peers: kp}})
@@ -246,12 +248,27 @@ func init() {
 			}
 			seen[p] = true
 		}
+		if c08Same(given, ready) != "same" { // StartParams rewrote the caller's ready list
+			return fmt.Sprintf("n=%d;in=%d;dup=%d;caller-list-changed", len(sub), in, dup)
+		}
 		return fmt.Sprintf("n=%d;in=%d;dup=%d", len(sub), in, dup)
 	}
 	// tweak <fixture 0..2> <tweak hex (32 bytes)>  =>  ok | <name of the first relation that fails>
 	// NewSigning (FROST) must sign with the share of the TWEAKED key: checked against btcec's independent arithmetic.
 	ops["C08.tweak"] = c08OpTweak
 	gens["C08"] = genC08
+}
+
+func c08Same(a, b []peer.ID) string {
+	if len(a) != len(b) {
+		return "changed"
+	}
+	for i := range a {
+		if a[i] != b[i] {
+			return "changed"
+		}
+	}
+	return "same"
 }
 
 func c08Has(ps []peer.ID, p peer.ID) bool {
@@ -660,7 +677,7 @@ func genC08(g *G) {
 		if depth == 0 {
 			return
 		}
-		for _, x := range []string{"1", "2"} {
+		for _, x := range []string{"1", "2", "3"} { // 3 = a relayer that answers but holds no share of this key
 			answers(append(append([]string{}, pre...), x), depth-1, f)
 		}
 	}
